@@ -242,6 +242,14 @@ class C16(spec.Spec):
         except Exception as e:
             out.violation("serialize-raises", "%s:tempfile-text-wrapper:%s" % (base, type(e).__name__), {"error": repr(e)}, hh)
         out.transitions += 1
+        # a codecs writer: a text stream (it takes str) over a binary one, without an `encoding` attribute
+        try:
+            import codecs
+            raw = io.BytesIO()
+            self.ser(doc, fmt, codecs.getwriter("utf-8")(raw))
+            texts["codecs-writer"] = raw.getvalue()
+        except Exception as e:
+            out.violation("serialize-raises", "%s:codecs-writer:%s" % (base, type(e).__name__), {"error": repr(e)}, hh)
         # the same wrapper class, opened in binary mode (after the text-mode instance above)
         try:
             with tempfile.NamedTemporaryFile("w+b", dir=tmp, suffix=".btmp") as tf:
@@ -289,7 +297,7 @@ class C16(spec.Spec):
             for k in ("StringIO", "gb18030-text-file", "tempfile-text-wrapper"):
                 if k in texts and texts[k] != ref:
                     out.violation("destinations-disagree", "%s:%s" % (fmt, k), {"a": ref[:300], "b": texts[k][:300]}, hh)
-            for k in ("BytesIO", "path", "tempfile-binary-wrapper", "relative-path-from-wd1", "relative-path-from-wd2"):
+            for k in ("BytesIO", "path", "tempfile-binary-wrapper", "relative-path-from-wd1", "relative-path-from-wd2", "codecs-writer"):
                 if k not in texts:
                     continue
                 try:
@@ -313,6 +321,7 @@ class C16(spec.Spec):
             "path": lambda: dict(source=path),
             "gb18030-text-file": lambda: dict(source=open(p16, "r", encoding="gb18030", newline="")),
             "tempfile-text-wrapper": lambda: dict(source=_tempfile_source(tmp, text)),
+            "codecs-reader": lambda: dict(source=__import__("codecs").getreader("utf-8")(io.BytesIO(data))),
         }
         if base == "provn":
             # write-only format: every reader must fail, none may return a document
